@@ -7,7 +7,7 @@
 EXTENDS Conv
 CONSTANTS Deep,     \* FALSE: quick bounds, TRUE: thorough bounds
           Which     \* the instance families to check (subset of {1, 2, 3, 4})
-VARIABLES inst, done
+VARIABLES inst
 
 Seqs(S, lens) == UNION { [1..m -> S] : m \in lens }
 \* 1-D arrays (along axis 3) with every index range lo..lo+n-1 and every value pattern
@@ -16,50 +16,46 @@ Impulses(lo, n) == { Arr(lo, n, [q \in 1..Size(n) |-> IF q = i THEN 1 ELSE 0]) :
                      \cup { Arr(lo, n, [q \in 1..Size(n) |-> ((q * q) % 5) - 1]) }
 
 MaxLen == IF Deep THEN 4 ELSE 3
-\* (1) 1-D: boundary conditions, mean preservation, symmetric form
-I1 == { [kind |-> "one", k |-> k, a |-> a, olo |-> <<0, 0, a.lo[3] + s>>, on |-> <<1, 1, m>>] :
-          k \in Arrays1(-2..1, 0..MaxLen, {-1, 0, 2}),
-          a \in Arrays1({-2, 0, 1}, 1..MaxLen, {1, 2}),
-          s \in {-2, 0, 1}, m \in {1, 3, 6} }
-I1s == { [kind |-> "sym", h |-> h, a |-> a] :
-          h \in Seqs({-1, 0, 2}, 0..MaxLen), a \in Arrays1({-2, 0, 3}, 1..(MaxLen + 1), {0, 1, 3}) }
-\* (2) 3-D separable
+\* (1) 1-D: boundary conditions, mean preservation
+I1 == \E k \in Arrays1(-2..1, 0..MaxLen, {-1, 0, 2}), a \in Arrays1({-2, 0, 1}, 1..MaxLen, {1, 2}), s \in {-2, 0, 1}, m \in {1, 3, 6} :
+        inst = [kind |-> "one", k |-> k, a |-> a, olo |-> <<0, 0, a.lo[3] + s>>, on |-> <<1, 1, m>>]
+\* (2) 1-D: symmetric form
+I1s == \E h \in Seqs({-1, 0, 2}, 0..MaxLen), a \in Arrays1({-2, 0, 3}, 1..(MaxLen + 1), {0, 1, 3}) :
+        inst = [kind |-> "sym", h |-> h, a |-> a]
+\* (3) 3-D separable
 K1 == { [lo |-> lo, v |-> v, bc |-> bc] : lo \in (IF Deep THEN {-1, 0, 1} ELSE {-1, 1}),
-                                          v \in {<<>>, <<2, -1>>, <<1, 0, 3>>} \cup (IF Deep THEN {<<1>>, <<3>>} ELSE {}),
-                                          bc \in {"zero", "constant"} }
-Shapes3 == IF Deep THEN {<<2, 2, 2>>, <<1, 2, 3>>, <<3, 1, 2>>, <<2, 3, 1>>} ELSE {<<2, 2, 2>>, <<1, 2, 3>>, <<3, 1, 2>>}
-I2 == { [kind |-> "sep", ks |-> <<k1, k2, k3>>, a |-> a] :
-          k1 \in K1, k2 \in K1, k3 \in K1,
-          a \in UNION { Impulses(lo, n) : lo \in {<<0, 0, 0>>, <<-1, 2, 1>>}, n \in Shapes3 } }
-\* (3) periodic convolution with padding against the non-periodic one; unused axes have size 1, index 0
+                                          v \in {<<>>, <<2, -1>>, <<1, 0, 3>>}, bc \in {"zero", "constant"} }
+Shapes3 == IF Deep THEN {<<2, 2, 2>>, <<1, 2, 3>>, <<3, 1, 2>>} ELSE {<<2, 2, 2>>, <<1, 2, 3>>}
+\* quick bounds: the same boundary condition on the three axes; thorough: mixed
+I2 == \E k1 \in K1, k2 \in K1, k3 \in K1, lo \in {<<0, 0, 0>>, <<-1, 2, 1>>}, n \in Shapes3 :
+        /\ (Deep \/ (k1.bc = k2.bc /\ k2.bc = k3.bc))
+        /\ \E a \in Impulses(lo, n) : inst = [kind |-> "sep", ks |-> <<k1, k2, k3>>, a |-> a]
+\* (4) periodic convolution with padding against the non-periodic one; unused axes have size 1, index 0
 Pads == IF Deep THEN {<<1, 1, 2>>, <<1, 1, 4>>, <<1, 2, 4>>, <<1, 1, 8>>, <<2, 2, 2>>, <<1, 4, 2>>}
         ELSE {<<1, 1, 2>>, <<1, 1, 4>>, <<1, 2, 4>>, <<1, 1, 8>>}
 Los(L, S) == { <<IF L[1] = 1 THEN 0 ELSE x, IF L[2] = 1 THEN 0 ELSE y, z>> : x \in S, y \in S, z \in S }
 Dims(L) == Cardinality({ d \in Axes : L[d] > 1 })
 Sub(L, m) == { n \in {<<a, b, c>> : a \in 1..L[1], b \in 1..L[2], c \in 1..L[3]} : Size(n) <= m }
-I3L(L) ==
-  LET one == Dims(L) = 1 IN
-  { [kind |-> "pad", k |-> k, a |-> a, olo |-> olo, on |-> on] :
-      k \in UNION { Impulses(lo, L) : lo \in Los(L, IF one THEN {-(L[3] \div 2), 0, 1, -L[3]} ELSE {-1, 0}) },
-      a \in UNION { Impulses(lo, n) : lo \in Los(L, IF one THEN {-1, 0, 3} ELSE {-1, 2}), n \in Sub(L, IF one THEN 4 ELSE 2) },
-      olo \in Los(L, IF one THEN {-2, 0, 3} ELSE {-2, 1}),
-      on \in (IF one THEN {<<1, 1, 1>>, <<1, 1, 2>>, <<1, 1, 5>>} ELSE { n \in Sub(L, 4) : Size(n) \in {1, 4} }) }
-I3 == UNION { I3L(L) : L \in Pads }
+I3 == \E L \in Pads :
+        LET one == Dims(L) = 1 IN
+        \E klo \in Los(L, IF one THEN {-(L[3] \div 2), 0, 1, -L[3]} ELSE {-1, 0}),
+           alo \in Los(L, IF one THEN {-1, 0, 3} ELSE {-1, 2}), an \in Sub(L, IF one THEN 4 ELSE 2),
+           olo \in Los(L, IF one THEN {-2, 0, 3} ELSE {-2, 1}),
+           on \in (IF one THEN {<<1, 1, 1>>, <<1, 1, 2>>, <<1, 1, 5>>} ELSE { n \in Sub(L, 4) : Size(n) \in {1, 4} }) :
+          \E k \in Impulses(klo, L), a \in Impulses(alo, an) :
+             inst = [kind |-> "pad", k |-> k, a |-> a, olo |-> olo, on |-> on]
 
-Instances == (IF 1 \in Which THEN I1 ELSE {}) \cup (IF 2 \in Which THEN I1s ELSE {})
-             \cup (IF 3 \in Which THEN I2 ELSE {}) \cup (IF 4 \in Which THEN I3 ELSE {})
-
-Init == inst \in Instances /\ done = FALSE
-Next == done = FALSE /\ done' = TRUE /\ inst' = inst
-Spec == Init /\ [][Next]_<<inst, done>>
+Init == \/ 1 \in Which /\ I1
+        \/ 2 \in Which /\ I1s
+        \/ 3 \in Which /\ I2
+        \/ 4 \in Which /\ I3
+\* no actions: every instance is an initial state on which the theorems are evaluated as invariants
+Next == FALSE /\ UNCHANGED inst
+Spec == Init /\ [][Next]_inst
 
 InvBoundary == inst.kind = "one" => ThBoundary(inst.k, inst.a, inst.olo, inst.on)
 InvMean     == inst.kind = "one" => \A c \in {1, 2} : ThMean(inst.k, inst.a, c)
 InvSym      == inst.kind = "sym" => ThSymmetric(inst.h, inst.a)
 InvSep      == inst.kind = "sep" => ThSeparable(inst.ks, inst.a)
 InvPad      == inst.kind = "pad" => ThNoWrap(inst.k, inst.a, inst.olo, inst.on)
-\* vacuity guards: the premises of the conditional theorems are met by some instance (checked as
-\* "never" properties that TLC must violate are not usable in a passing run; instead the counts are
-\* printed once per run by MC_Conv's ASSUME below)
-ASSUME PrintT(<<"instances", Cardinality(Instances)>>)
 =============================================================================
